@@ -157,6 +157,19 @@ func (s *V2Sessionless) buildAndSendPayload(ctx context.Context, p ipmi.Payload)
 		s.v2SessionLayer.LayerPayload(), gopacket.NilDecodeFeedback)
 }
 
+// validateResponseTo ensures a decoded message is a response to the command
+// that was sent, rather than a duplicated, delayed or unsolicited reply that
+// belongs to another command: the network function must be the response
+// counterpart of the request's, and the command number must match.
+func validateResponseTo(c ipmi.Command, m *ipmi.Message) error {
+	op := c.Operation()
+	if m.Function != op.Function|1 || m.Command != op.Command {
+		return fmt.Errorf("response is for %v command %#x, expected %v command %#x",
+			m.Function, uint8(m.Command), op.Function|1, uint8(op.Command))
+	}
+	return nil
+}
+
 // saves having to write two SerializeLayers calls in SendCommand
 func serializableLayerOrEmpty(s gopacket.SerializableLayer) gopacket.SerializableLayer {
 	if s == nil {
@@ -252,6 +265,9 @@ func (s *V2Sessionless) buildAndSendCommand(ctx context.Context, c ipmi.Command)
 		// here)
 		types := layerexts.DecodedTypes(s.layers)
 		if err := types.InnermostEquals(ipmi.LayerTypeMessage); err != nil {
+			return err
+		}
+		if err := validateResponseTo(c, &s.messageLayer); err != nil {
 			return err
 		}
 
